@@ -15,11 +15,17 @@ KT = {
 def e2e(name, kt, n, eps, epsrec, flt='float', tiers=('quick', 'thorough'), timeout=900, unwind=None, extra=None):
     d = dict(KT[kt]); d.update(N=n, NMIN=n, EPS=eps, EPSREC=epsrec, FLT=flt, VERIF_VEC_CAP=n + 4)
     if extra: d.update(extra)
-    return dict(name=name, unit='pgm_e2e.cpp', harness='h_pgm_e2e.c', defs=d,  narrow=16 if KT[kt]['KEY_BITS'] == 8 else 0,
+    return dict(name=name, unit='pgm_e2e.cpp', harness='h_pgm_e2e.c', defs=d, cbmc_extra=['--no-array-field-sensitivity'],  narrow=16 if KT[kt]['KEY_BITS'] == 8 else 0,
                 timeout=timeout, tiers=tiers,
                 bounds='exactly n = %d keys of %s (all values except the reserved maximum), every query value except the reserved one, Epsilon=%d, '
                        'EpsilonRecursive=%d, %s slopes; sequential construction; loops unwound %d times with unwinding assertions'
                        % (n, kt, eps, epsrec, flt, unwind or n + 3))
+
+
+def pla(name, k, epsmax=2, ymax=12, tiers=('quick', 'thorough'), timeout=900):
+    d = dict(KT['uint8_t']); d.update(NPTS=k, EPSMAX=epsmax, YMAX=ymax, VERIF_VEC_CAP=k + 2)
+    return dict(name=name, unit='pla.cpp', harness='h_pla.c', defs=d, narrow=16, timeout=timeout, tiers=tiers,
+                bounds='%d points with strictly increasing 8-bit keys and non-decreasing ranks <= %d, epsilon symbolic in 0..%d' % (k, ymax, epsmax))
 
 
 JOBS = {
@@ -34,6 +40,9 @@ JOBS = {
     ],
 }
 
+JOBS['C03'] = [pla('pla_k3', 3), pla('pla_k4', 4)]
+
 PROPS = {
+    'C03': dict(level='model_checking', explanation='', outside=[], assumptions=[]),
     'C01': dict(level='model_checking', explanation='', outside=[], assumptions=[]),
 }
